@@ -833,6 +833,49 @@ fn exec_bnd(t: &[&str]) -> Outcome {
     dispatch(t[0], t[1], BndJob { field: t[1], seed: &seed, ops: &ops }).unwrap_or_else(|| Outcome::ok("bad-op"))
 }
 
+// ------------------------------------------------------------------------------------ Randomizable for integers
+/// `rnd W HEX`: the integer implementations of `Randomizable` (utils/core/src/lib.rs, next to the field elements' that
+/// the coin draws through): `uW::from_random_bytes(bytes)` is the little-endian value of the first W/8 bytes. Fewer
+/// bytes than VALUE_SIZE are outside what a caller may pass (the coin always passes VALUE_SIZE bytes); the outcome is
+/// recorded (`panic` on the pinned tree although the trait documents `None` for invalid input) but not judged.
+fn exec_rnd(t: &[&str]) -> Outcome {
+    let (Some(w), Some(bytes)) = (t.first().and_then(|s| s.parse::<usize>().ok()), t.get(1).and_then(|h| unhex_opt(h))) else {
+        return Outcome::ok("bad-op");
+    };
+    if t.len() != 2 {
+        return Outcome::ok("bad-op");
+    }
+    macro_rules! go {
+        ($T:ty) => {{
+            let r = guarded(|| <$T as Randomizable>::from_random_bytes(&bytes).map(|v| v as u128));
+            (r, <$T as Randomizable>::VALUE_SIZE)
+        }};
+    }
+    let (r, size) = match w {
+        8 => go!(u8),
+        16 => go!(u16),
+        32 => go!(u32),
+        64 => go!(u64),
+        128 => go!(u128),
+        _ => return Outcome::ok("bad-op"),
+    };
+    let mut o = Outcome::ok(match &r {
+        Ok(Some(v)) => format!("some {}", v),
+        Ok(None) => "none".into(),
+        Err(_) => "panic".into(),
+    });
+    if size != w / 8 {
+        o = o.fail(format!("randomizable.u{}.value-size", w), format!("VALUE_SIZE = {}", size));
+    }
+    if bytes.len() >= w / 8 {
+        let want = bytes[..w / 8].iter().rev().fold(0u128, |a, b| (a << 8) | *b as u128);
+        if !matches!(r, Ok(Some(v)) if v == want) {
+            o = o.fail(format!("randomizable.u{}.value", w), format!("{} bytes {}: expected {}", bytes.len(), hex(&bytes), want));
+        }
+    }
+    o
+}
+
 // ------------------------------------------------------------------------------------ end-to-end proof of work
 pub struct FibAir<B: StarkField> {
     context: AirContext<B>,
@@ -1085,6 +1128,21 @@ fn rand_ops(rng: &mut Rng, max_len: u64, small: bool) -> Vec<String> {
 fn gen_all(rng: &mut Rng, tier: Tier, n: usize, emit: &mut dyn FnMut(String)) {
     let thorough = tier == Tier::Thorough;
     let fields = ["f64", "f62", "f128"];
+    // --- the integer implementations of Randomizable: every length from 0 to VALUE_SIZE + 2, boundary and random bytes
+    for w in [8usize, 16, 32, 64, 128] {
+        for len in 0..=(w / 8 + 2) {
+            for fill in 0..4 {
+                let b: Vec<u8> = match fill {
+                    0 => vec![0u8; len],
+                    1 => vec![0xffu8; len],
+                    2 => (0..len).map(|i| if i + 1 == w / 8 { 0x80 } else { 0 }).collect(),
+                    _ => rng.bytes(len),
+                };
+                emit(format!("rnd {} {}", w, hex(&b)));
+            }
+        }
+        emit(format!("rnd {} {}", w, hex(&rng.bytes(64))));
+    }
     // --- every element type on every hasher (fixed small histories)
     for h in ["toy0", "toy1", "toy2"] {
         for f in fields {
@@ -1378,6 +1436,7 @@ impl Prop for P {
             "oracle" => exec_run(&t[1..], true),
             "pow" => exec_pow(&t[1..]),
             "bnd" => exec_bnd(&t[1..]),
+            "rnd" => exec_rnd(&t[1..]),
             _ => Outcome::ok("bad-op"),
         }
     }
@@ -1389,6 +1448,12 @@ impl Prop for P {
         if line.contains(" ;; ") {
             let label = if t[0] == "tag" { t.get(1).copied().unwrap_or("") } else { "unlabelled" };
             return format!("hist:{}:{}", label, if out.contains("panic") { "panic" } else { "ok" });
+        }
+        if t[0] == "rnd" {
+            let len = t.get(2).map(|h| if *h == "-" { 0 } else { h.len() / 2 }).unwrap_or(0);
+            let w = t.get(1).and_then(|w| w.parse::<usize>().ok()).unwrap_or(0);
+            let rel = if len < w / 8 { "short" } else if len == w / 8 { "exact" } else { "long" };
+            return format!("rnd.u{}.{}:{}", w, rel, out.split(' ').next().unwrap_or(""));
         }
         let o = if out == "bad-op" {
             "bad-op"
